@@ -183,7 +183,13 @@ where
     fn format_response_data(&self, formatter: &mut dyn Formatter) -> Result<()> {
         let mnemonic = self.mnemonic();
         let short_form = mnemonic.split(|c| !c.is_ascii_uppercase()).next().unwrap();
-        formatter.push_str(short_form)
+        // A numeric suffix is part of the mnemonic, `ASCii2` is `ASC2` and not `ASC`
+        let suffix = mnemonic
+            .iter()
+            .rposition(|c| !c.is_ascii_digit())
+            .map_or(mnemonic, |p| &mnemonic[p + 1..]);
+        formatter.push_str(short_form)?;
+        formatter.push_str(suffix)
     }
 }
 
